@@ -842,8 +842,23 @@ impl VM {
                 ));
             }
         }
-        // For non-constraint values in constraint position (backward compat),
-        // this is a no-op since typecheck already verified shape compatibility
+        // A non-constraint value in constraint position is an exemplar. The
+        // typechecker verifies the shape where it can infer it, but the shape
+        // of e.g. a call result is only known now.
+        else {
+            let exemplar: crate::build::ir::Val = constraint.as_ref().into();
+            let ir_val: crate::build::ir::Val = val.as_ref().into();
+            if !exemplar.shape_admits(&ir_val) {
+                return Err(Error::new(
+                    format!(
+                        "Value {} does not have the shape of the constraint {}",
+                        ir_val, exemplar
+                    )
+                    .into(),
+                    val_pos,
+                ));
+            }
+        }
         Ok(())
     }
 
